@@ -1904,17 +1904,33 @@ class JobsCursor:
                 "when grouping by a (list of) string key(s)."
             )
 
+        def _is_doc_key(key):
+            """Check if a key is a document key."""
+            return "." in key and key.split(".", 1)[0] == "doc"
+
         def _strip_prefix(key):
-            """Strip the prefix, if it is present.
+            """Strip the namespace prefix (sp. or doc.), if it is present.
 
             Implicit and explicit sp prefixes are equivalent and can be treated
             identically for this purpose.
             """
-            return key.split(".", 1)[-1]
+            if "." in key and key.split(".", 1)[0] in ("sp", "doc"):
+                return key.split(".", 1)[1]
+            return key
 
-        def _is_doc_key(key):
-            """Check if a key is a document key."""
-            return "." in key and key.split(".", 1)[0] == "doc"
+        _no_default = object()
+
+        def _get(mapping, key, default=_no_default):
+            """Get the value of a (possibly dotted, i.e. nested) key."""
+            value = mapping
+            try:
+                for node in key.split("."):
+                    value = value[node]
+            except (KeyError, TypeError):
+                if default is _no_default:
+                    raise KeyError(key)
+                return default
+            return value
 
         if isinstance(key, str):
             stripped_key = _strip_prefix(key)
@@ -1928,23 +1944,23 @@ class JobsCursor:
                 if _is_doc_key(key):
 
                     def keyfunction(job):
-                        return job.document[stripped_key]
+                        return _get(job.document, stripped_key)
 
                 else:
 
                     def keyfunction(job):
-                        return job.cached_statepoint[stripped_key]
+                        return _get(job.cached_statepoint, stripped_key)
 
             else:
                 if _is_doc_key(key):
 
                     def keyfunction(job):
-                        return job.document.get(stripped_key, default)
+                        return _get(job.document, stripped_key, default)
 
                 else:
 
                     def keyfunction(job):
-                        return job.cached_statepoint.get(stripped_key, default)
+                        return _get(job.cached_statepoint, stripped_key, default)
 
         elif isinstance(key, Iterable):
             sp_keys = []
@@ -1963,16 +1979,16 @@ class JobsCursor:
 
                 def keyfunction(job):
                     return tuple(
-                        [job.cached_statepoint[k] for k in sp_keys]
-                        + [job.document[k] for k in doc_keys]
+                        [_get(job.cached_statepoint, k) for k in sp_keys]
+                        + [_get(job.document, k) for k in doc_keys]
                     )
 
             else:
 
                 def keyfunction(job):
                     return tuple(
-                        [job.cached_statepoint.get(k, default) for k in sp_keys]
-                        + [job.document.get(k, default) for k in doc_keys]
+                        [_get(job.cached_statepoint, k, default) for k in sp_keys]
+                        + [_get(job.document, k, default) for k in doc_keys]
                     )
 
         elif key is None:
